@@ -163,8 +163,8 @@ class Check:
     def anchors(self, items):
         """items: list of (relpath, qualname).  A changed AST hash multiplies the
         correspondence budget by 10 for this run (never a violation by itself)."""
-        base_file = os.path.join(ROOT, "tools", "harness", "anchors.json")
-        base = json.load(open(base_file)) if os.path.exists(base_file) else {}
+        base_file = os.path.join(ROOT, "tools", "harness", "anchors", f"{self.prop}.json")
+        old = json.load(open(base_file)) if os.path.exists(base_file) else {}
         cur = {}
         for rel, q in items:
             key = f"{rel}::{q or ''}"
@@ -173,10 +173,9 @@ class Check:
             except Exception as e:  # unparsable source etc.
                 cur[key] = f"error:{type(e).__name__}"
         if os.environ.get("VERIF_RECORD_ANCHORS"):
-            base.setdefault(self.prop, {}).update(cur)
-            json.dump(base, open(base_file, "w"), indent=1, sort_keys=True)
+            os.makedirs(os.path.dirname(base_file), exist_ok=True)
+            json.dump(cur, open(base_file, "w"), indent=1, sort_keys=True)
             return
-        old = base.get(self.prop, {})
         self.anchors_changed = [k for k, v in cur.items() if old.get(k) not in (None, v)]
         if self.anchors_changed:
             self.budget_factor = 10 if self.tier == "quick" else 2
